@@ -42,6 +42,10 @@ CLAIMED["C19"] = ("timer.Async: the same monitor pattern as C05 on asyncMux/asyn
   "Assumed: sync/atomic operations are atomic (their results are arbitrary: other threads interfere); the Go runtime starts each 'go' closure exactly once; channels deliver each sent value at most once; tasks still queued when Stop is called are not decided (schedule dependent); the recover barriers around tasks are structural (inlined), not separately proved; a user-supplied caller runs its argument (trusted).",
   "DESIGN.md 4 C19")
 
+CLAIMED["C16"] = ("The timer state machine of conn_unix.go under the connection mutex: SetDeadline / SetReadDeadline / SetWriteDeadline with a non-zero time leave the direction's timer non-nil and armed, re-using the existing timer (at most one live timer per direction: no second timer is created when one exists; the two directions never share a timer: monitor invariant); with the zero time the timer is stopped and the field dropped; on a closed connection nothing changes; each timer callback closes the connection with the matching timeout error (read/write); Write and Writev stop and drop the write timer when they leave the backlog empty; the first Close stops and drops both timers. A stale timer callback can only reach closeWithError, which C03 proves to be a no-op on a closed connection.",
+  "Not decided: timing itself ('fires on time, never early') and the race between a timer that has fired but not yet run and a renewal are properties of the runtime timer under real time (time.AfterFunc/Reset/Stop are trusted: Reset/AfterFunc arm for the given duration, Stop disarms); the durations are whatever time.Until returned. Keep-alive renewal in nbhttp (flushResponse, AddConn*) and websocket (handleWsMessage, Upgrade) is not under contract in this claim. The error-teardown exits of Write/Writev/flush/Sendfile leave the timers armed (harmless by C03).",
+  "DESIGN.md 4 C16")
+
 NA = {
  "C18": "termination of Stop/Shutdown and release of goroutines/descriptors for all histories is liveness + whole-process resource state; no contract within reach of a per-function deductive verifier decides it (DESIGN.md 4 C18)",
 }
